@@ -11,8 +11,12 @@ import (
 	"strings"
 	"time"
 
+	"github.com/cosmos/cosmos-sdk/crypto/keys/secp256k1"
 	sdk "github.com/cosmos/cosmos-sdk/types"
 	authtypes "github.com/cosmos/cosmos-sdk/x/auth/types"
+	distrtypes "github.com/cosmos/cosmos-sdk/x/distribution/types"
+	govtypes "github.com/cosmos/cosmos-sdk/x/gov/types"
+	govv1 "github.com/cosmos/cosmos-sdk/x/gov/types/v1"
 	vestingtypes "github.com/cosmos/cosmos-sdk/x/auth/vesting/types"
 	"github.com/cosmos/cosmos-sdk/x/auth/vesting"
 	burntypes "github.com/medibloc/panacea-core/v2/x/burn/types"
@@ -145,6 +149,63 @@ func (e *burnEnv) monInvariants() {
 	}))
 }
 
+// monEndBlockMovers: coins that reach the burn address while the block is being ended (here: a passed governance
+// proposal spending part of the community pool to the burn address, executed by x/gov's end-blocker) are burned in
+// that same block — the burn has to run after every end-blocker that can move coins.
+func monEndBlockMovers(s *Stream) {
+	s.Emit("mon.c07.endblock-movers", guard(func() string {
+		old := genesisExtraCoins
+		genesisExtraCoins = nil
+		defer func() { genesisExtraCoins = old }()
+		accts := []*Acct{newAcct("A", []byte("gov-A"))}
+		c, err := NewChain(memDB(), tmpHome(), accts, 1000000000, nil)
+		if err != nil {
+			return "pass #no-chain " + err.Error()
+		}
+		burnAddr := sdk.MustAccAddressFromBech32(burntypes.BurnAddress)
+		del := sdk.AccAddress(secp256k1.GenPrivKeyFromSecret([]byte("verif-delegator")).PubKey().Address())
+		t0 := c.Time.Add(5 * time.Second)
+		c.Begin(t0)
+		ctx := c.DeliverCtx()
+		if err := c.App.DistrKeeper.FundCommunityPool(ctx, sdk.NewCoins(sdk.NewInt64Coin(feeDenom, 1000)), accts[0].Addr); err != nil {
+			return "pass #cannot-fund-pool " + err.Error()
+		}
+		spend := &distrtypes.MsgCommunityPoolSpend{Authority: authtypes.NewModuleAddress(govtypes.ModuleName).String(),
+			Recipient: burntypes.BurnAddress, Amount: sdk.NewCoins(sdk.NewInt64Coin(feeDenom, 400))}
+		prop, err := c.App.GovKeeper.SubmitProposal(ctx, []sdk.Msg{spend}, "", "burn part of the community pool", "spend to the burn address", del)
+		if err != nil {
+			return "pass #cannot-submit " + err.Error()
+		}
+		started, err := c.App.GovKeeper.AddDeposit(ctx, prop.Id, del, c.App.GovKeeper.GetParams(ctx).MinDeposit)
+		if err != nil || !started {
+			return fmt.Sprintf("pass #no-voting-period started=%v err=%v", started, err)
+		}
+		if err := c.App.GovKeeper.AddVote(ctx, prop.Id, del, govv1.NewNonSplitVoteOption(govv1.OptionYes), ""); err != nil {
+			return "pass #cannot-vote " + err.Error()
+		}
+		c.End()
+		c.Commit()
+		vp := *c.App.GovKeeper.GetParams(c.QueryCtx()).VotingPeriod
+		c.Begin(t0.Add(vp + time.Minute))
+		ctx = c.DeliverCtx()
+		sup0 := c.App.BankKeeper.GetSupply(ctx, feeDenom).Amount
+		c.End()
+		ctx = c.DeliverCtx()
+		p2, ok := c.App.GovKeeper.GetProposal(ctx, prop.Id)
+		if !ok || p2.Status != govv1.StatusPassed {
+			return fmt.Sprintf("pass #proposal-not-passed status=%v", p2.Status)
+		}
+		if left := c.App.BankKeeper.SpendableCoins(ctx, burnAddr); !left.IsZero() {
+			return "fail #burn-address-not-empty-at-end-of-block " + left.String()
+		}
+		if got := sup0.Sub(c.App.BankKeeper.GetSupply(ctx, feeDenom).Amount); !got.Equal(sdk.NewInt(400)) {
+			return "fail #supply-did-not-shrink-by-what-reached-the-burn-address shrank=" + got.String()
+		}
+		c.Commit()
+		return "pass"
+	}))
+}
+
 func burnHistory(s *Stream, rng *rand.Rand, steps int, allowVest bool) {
 	e := newBurnEnv(s)
 	e.header()
@@ -182,6 +243,7 @@ func init() {
 	streams["burn"] = func(dir string, rng *rand.Rand, n int, tier string) {
 		s := NewStream(dir, "burn")
 		defer s.Close(dir, "burn")
+		monEndBlockMovers(s)
 		for h := 0; h < n; h++ {
 			burnHistory(s, rng, 10+rng.Intn(25), true)
 		}
